@@ -10,6 +10,7 @@ CONSTANTS
   Typed = FALSE
   Ops = {"ConstructEmpty", "MoveConstruct", "AddHandle", "AddTo", "MergeShl", "MoveAssign", "Pop", "Clear", "Destroy", "CoAwait"}
   Fixed = TRUE
+  Ctxs = {"flow"}
   Targets = {3, 6, 12, 24}
 INVARIANTS TypeOK RepOK NoDoubleResume Conservation NoLeak
 PROPERTIES InlineNoAlloc MovedFromIsEmpty EmptyResumesNothing ValuePreserved ReadsAgree ResumeOrder QueueFIFO
